@@ -67,11 +67,23 @@ func (u *WSUpstream) Close() {
 	u.srv.Close()
 }
 
-// Snapshot returns a copy of the connection records.
+// Snapshot returns copies of the connection records (counters stay live through the returned pointers' atomics).
 func (u *WSUpstream) Snapshot() []*UpstreamConn {
 	u.mu.Lock()
 	defer u.mu.Unlock()
-	return append([]*UpstreamConn{}, u.Conns...)
+	out := make([]*UpstreamConn, 0, len(u.Conns))
+	for _, c := range u.Conns {
+		cp := &UpstreamConn{Service: c.Service, Marker: c.Marker, Query: c.Query, Variables: c.Variables, Valid: c.Valid, ValidErr: c.ValidErr, OpenedAt: c.OpenedAt,
+			Emitted: atomic.LoadInt32(&c.Emitted), Done: atomic.LoadInt32(&c.Done), Closed: atomic.LoadInt32(&c.Closed), StopSeen: atomic.LoadInt32(&c.StopSeen)}
+		out = append(out, cp)
+	}
+	return out
+}
+
+func (u *WSUpstream) set(f func()) {
+	u.mu.Lock()
+	f()
+	u.mu.Unlock()
 }
 
 type wsMsg struct {
@@ -146,8 +158,10 @@ func (u *WSUpstream) handle(w http.ResponseWriter, r *http.Request) {
 				if pl.OperationName != nil {
 					req.OperationName = *pl.OperationName
 				}
-				rec.Query, rec.Variables = pl.Query, pl.Variables
-				rec.Marker = markerOf(req)
+				u.set(func() {
+					rec.Query, rec.Variables = pl.Query, pl.Variables
+					rec.Marker = markerOf(req)
+				})
 				go u.play(rec, m.ID, req, send, stop, conn)
 			case "stop":
 				atomic.StoreInt32(&rec.StopSeen, 1)
@@ -173,12 +187,12 @@ func (u *WSUpstream) play(rec *UpstreamConn, id string, req *engine.Request, sen
 	defer atomic.StoreInt32(&rec.Done, 1)
 	doc, op, err := engine.Prepare(u.Svc.Schema, *req)
 	if err != nil {
-		rec.ValidErr = err.Error()
+		u.set(func() { rec.ValidErr = err.Error() })
 		u.Svc.Log.add(&Event{Service: u.Svc.Name, Query: req.Query, Variables: req.Variables, Valid: false, ValidErr: err.Error(), OpKw: "subscription"})
 		send(map[string]any{"id": id, "type": "error", "payload": []any{map[string]any{"message": "upstream validation: " + err.Error()}}})
 		return
 	}
-	rec.Valid = true
+	u.set(func() { rec.Valid = true })
 	u.Svc.Log.add(&Event{Service: u.Svc.Name, Query: req.Query, Variables: req.Variables, Valid: true, OpKw: "subscription"})
 	var script []SubEvent
 	if u.Script != nil {
